@@ -202,10 +202,17 @@ func (r *Run) Report(c Cex) {
 	r.cexCount[c.Sig]++
 	if _, ok := r.cexBySig[c.Sig]; !ok {
 		cc := c
+		// on a badly broken tree a check can produce tens of thousands of distinct signatures, each with a program text:
+		// beyond the first few hundred only signature and summary are kept (every signature is still counted and reported)
+		if len(r.cexBySig) >= maxDetailedCex {
+			cc.Detail = map[string]any{"detail": fmt.Sprintf("omitted: more than %d distinct counterexample signatures in this run", maxDetailedCex)}
+		}
 		r.cexBySig[c.Sig] = &cc
 	}
 	r.mu.Unlock()
 }
+
+const maxDetailedCex = 300
 
 // Merge folds a shard's partial result into r.
 func (r *Run) Merge(p *Partial) {
